@@ -1,5 +1,5 @@
 (* C02 -- Variable tree mirrors the module tree; init, apply and shape-only init agree.  (PARTIAL: see the evidence notes) *)
-From Flaxm Require Import Lib.Harness Model.Filters Model.Linen Proofs.Linen Proofs.LinenInit.
+From Flaxm Require Import Lib.Harness Model.Filters Model.Linen Proofs.Linen Proofs.LinenInit Proofs.LinenChild.
 
 (* a name clash between submodules, between a submodule and a variable, or between two variables of one collection
    raises NameInUse; the same name in two different collections is allowed *)
@@ -68,6 +68,44 @@ Example C02_init_apply_example :
                   | Err _ => False end
   | Err _ => False end.
 Proof. vm_compute. repeat split; reflexivity. Qed.
+
+(* each submodule's variables sit under the submodule's name, so a submodule applied on its own sub-tree computes what it
+   computes inside its parent: for every program, class, scope path p, input and variable tree V in which p is a scope
+   (not a variable), running the module at p on V and running it at the root on the dicts V holds at p give the same
+   output (or the standalone run succeeds whenever the inner one does), and every variable the standalone run leaves at
+   path q is the one the inner run leaves at p ++ q, in every collection *)
+Theorem C02_child_alone_equals_child_inside : forall ev fuel cls p x V cs tr y sA',
+  scope_ok p V -> run_call fuel ev cls p x (mkSt V cs tr) = Ok (y, sA') ->
+  exists sB', run_call fuel ev cls [] x (mkSt (subtree p V) [] []) = Ok (y, sB') /\
+              forall col q nm, get_var (s_vars sB') col q nm = get_var (s_vars sA') col (p ++ q) nm.
+Proof. exact child_alone_vars. Qed.
+Print Assumptions C02_child_alone_equals_child_inside.
+
+(* the same for a module that is itself nested: any split of the scope path *)
+Theorem C02_child_simulation : forall ev p fuel cls q x sA y sA', run_call fuel ev cls (p ++ q) x sA = Ok (y, sA') ->
+  forall sB, Rsub p (s_vars sA) (s_vars sB) ->
+  exists sB', run_call fuel ev cls q x sB = Ok (y, sB') /\ Rsub p (s_vars sA') (s_vars sB').
+Proof. exact run_call_child. Qed.
+Print Assumptions C02_child_simulation.
+
+Example C02_child_alone_example :
+  let leaf : mclass := ([SParam 1 (NExp 0) 0 2; SVar 2 5 (NExp 1) 1 7; SVarSet 5 (NExp 1) (EAdd (ELocal 2) (ELocal 2))], EAdd (EMul (ELocal 1) EInput) (ELocal 2)) in
+  let mid : mclass := ([SChild 1 7 None; SParam 3 (NExp 4) 1 5; SCall 1 1 EInput], EAdd (ELocal 1) (ELocal 3)) in
+  let top : mclass := ([SChild 1 8 (Some 9%N); SCall 1 1 EInput; SCall 2 1 (ELocal 1)], ELocal 2) in
+  let ev := mkEnv (FBool true) [0%N] [(7%N, leaf); (8%N, mid); (0%N, top)] 0 4 in
+  match apply_m ev 0 [] [3]%Z with
+  | Ok (_, s1) =>
+      let V := s_vars s1 in
+      scope_okb [NExp 9] V = true /\
+      match run_call FUEL ev 8 [NExp 9] [3]%Z (mkSt V [] []), run_call FUEL ev 8 [] [3]%Z (mkSt (subtree [NExp 9] V) [] []) with
+      | Ok (y, sA), Ok (y', sB) => y = y' /\ y = [39]%Z /\
+          get_var (s_vars sB) 5 [NAuto 7 0] (NExp 1) = get_var (s_vars sA) 5 [NExp 9; NAuto 7 0] (NExp 1) /\
+          get_var (s_vars sB) 5 [NAuto 7 0] (NExp 1) = Some (SVec [56]%Z)
+      | _, _ => False end
+  | Err _ => False end.
+Proof. vm_compute. repeat split; reflexivity. Qed.
+Lemma C02_scope_check_sound : forall p V, scope_okb p V = true -> scope_ok p V.
+Proof. exact scope_okb_ok. Qed.
 
 (* deterministic automatic names: an unnamed child of class K created when k unnamed children of K exist gets the
    name K_k, and its scope is the parent's path extended by that name *)
